@@ -74,7 +74,7 @@ def fn_inotify_AddWith : List SkOp := [
     ⟨"ifEnd", "", [], ["mu"]⟩,
     ⟨"ret", "nil", [], ["mu"]⟩,
     ⟨"litEnd", "", [], ["mu"]⟩,
-    ⟨"ret", "filepath.WalkDir(%1, func(%2 string, %3 fs.DirEntry, %4 error) error { if %4!=nil { return %4 } if !%3.IsDir() { if %2==%1 { return fmt.Errorf(\"fsnotify: not a directory: %q\", %1) } return nil } if %5.sendCreate&&%2!=%1 { %6.sendEvent(Event{Name: %2, Op: Create}) } return %7(%2, %5, true) })", [], ["mu"]⟩
+    ⟨"ret", "filepath.WalkDir(%1, func(%2 string, %3 fs.DirEntry, %4 error) error { if %4!=nil { return %4 } if !%3.IsDir() { if %2==%1 { return fmt.Errorf(\"fsnotify: not a directory: %q\", %1) } return nil } if %5.sendCreate&&%2!=%1 { %6.sendEvent(…) } return %7(%2, %5, true) })", [], ["mu"]⟩
 ]
 
 def fn_inotify_AddWith_add : List SkOp := [
@@ -180,7 +180,7 @@ def fn_inotify_handleEvent : List SkOp := [
     ⟨"call", "remove", [], ["mu"]⟩,
     ⟨"ifBegin", "%1!=nil&&!errors.Is(%1, ErrNonExistentWatch)&&!errors.Is(%1, unix.EINVAL)", [], ["mu"]⟩,
     ⟨"call", "sendError", [], ["mu"]⟩,
-    ⟨"ifBegin", "!%1.sendError(%2)", [], ["mu"]⟩,
+    ⟨"ifBegin", "!%1.sendError(…)", [], ["mu"]⟩,
     ⟨"ret", "Event{}, false", [], ["mu"]⟩,
     ⟨"ifEnd", "", [], ["mu"]⟩,
     ⟨"ifEnd", "", [], ["mu"]⟩,
@@ -197,7 +197,7 @@ def fn_inotify_handleEvent : List SkOp := [
     ⟨"ifBegin", "%1.Mask&unix.IN_ISDIR==unix.IN_ISDIR&&%2.Has(Create)", [], ["mu"]⟩,
     ⟨"call", "register", [], ["mu"]⟩,
     ⟨"call", "sendError", [], ["mu"]⟩,
-    ⟨"ifBegin", "!%1.sendError(%2)", [], ["mu"]⟩,
+    ⟨"ifBegin", "!%1.sendError(…)", [], ["mu"]⟩,
     ⟨"ret", "Event{}, false", [], ["mu"]⟩,
     ⟨"ifEnd", "", [], ["mu"]⟩,
     ⟨"ifBegin", "%1.renamedFrom!=\"\"", [], ["mu"]⟩,
@@ -285,7 +285,7 @@ def fn_inotify_readEvents : List SkOp := [
     ⟨"ret", "", [], []⟩,
     ⟨"ifEnd", "", [], []⟩,
     ⟨"call", "sendError", [], []⟩,
-    ⟨"ifBegin", "!%1.sendError(%2)", [], []⟩,
+    ⟨"ifBegin", "!%1.sendError(…)", [], []⟩,
     ⟨"ret", "", [], []⟩,
     ⟨"ifEnd", "", [], []⟩,
     ⟨"branch", "continue", [], []⟩,
@@ -294,7 +294,7 @@ def fn_inotify_readEvents : List SkOp := [
     ⟨"ifBegin", "%1==0", [], []⟩,
     ⟨"ifEnd", "", [], []⟩,
     ⟨"call", "sendError", [], []⟩,
-    ⟨"ifBegin", "!%1.sendError(%2)", [], []⟩,
+    ⟨"ifBegin", "!%1.sendError(…)", [], []⟩,
     ⟨"ret", "", [], []⟩,
     ⟨"ifEnd", "", [], []⟩,
     ⟨"branch", "continue", [], []⟩,
@@ -302,7 +302,7 @@ def fn_inotify_readEvents : List SkOp := [
     ⟨"loopBegin", "%1<=uint32(%2-unix.SizeofInotifyEvent)", [], []⟩,
     ⟨"ifBegin", "%1.Mask&unix.IN_Q_OVERFLOW!=0", [], []⟩,
     ⟨"call", "sendError", [], []⟩,
-    ⟨"ifBegin", "!%1.sendError(ErrEventOverflow)", [], []⟩,
+    ⟨"ifBegin", "!%1.sendError(…)", [], []⟩,
     ⟨"ret", "", [], []⟩,
     ⟨"ifEnd", "", [], []⟩,
     ⟨"ifEnd", "", [], []⟩,
@@ -311,7 +311,7 @@ def fn_inotify_readEvents : List SkOp := [
     ⟨"ret", "", [], []⟩,
     ⟨"ifEnd", "", [], []⟩,
     ⟨"call", "sendEvent", [], []⟩,
-    ⟨"ifBegin", "!%1.sendEvent(%2)", [], []⟩,
+    ⟨"ifBegin", "!%1.sendEvent(…)", [], []⟩,
     ⟨"ret", "", [], []⟩,
     ⟨"ifEnd", "", [], []⟩,
     ⟨"loopEnd", "", [], []⟩,
